@@ -51,3 +51,25 @@ t = forest({1: 0, 2: 1, 3: 2}, [(1, 2), (2, 3)])
 attempt("D-C11e", t, lambda: UserDeleteNode(t, 2, pixels=(np.array([1]), np.array([0]), np.array([0]))))
 t = forest({1: 0, 3: 2}, [(1, 3)])
 attempt("D-C11f", t, lambda: UserAddNode(t, 7, {"time": 1, "track_id": t.get_track_id(1), "pos": [1.0, 1.0]}, pixels=(np.array([1]), np.array([0]), np.array([0]))))
+# g: a change list whose SECOND previous label is not a node (invalid argument): the first entry's edit is applied,
+#    then the lookup for the unknown label raises; nothing is recorded.  The array itself is the caller's to restore,
+#    so compare node attributes (the first node's area / position were already recomputed).
+t = forest({1: 0, 2: 0}, [], seg=True)
+q1 = (np.array([0]), np.array([3]), np.array([3]))      # one pixel of node 1
+q2 = (np.array([0]), np.array([30]), np.array([30]))    # a pixel the caller claims was label 99
+t.segmentation[q1] = 0
+t.segmentation[q2] = 0
+
+
+def attrs(tr):
+    return {n: {k: (v.tolist() if hasattr(v, "tolist") else v) for k, v in tr.graph.nodes[n].items()} for n in tr.graph.nodes}
+
+
+before_g = (attrs(t), len(t.action_history.undo_stack))
+try:
+    UserUpdateSegmentation(t, 0, [(q1, 1), (q2, 99)], current_track_id=1)
+    print("not reproduced D-C11g: no exception")
+except Exception as e:  # noqa: BLE001
+    after_g = (attrs(t), len(t.action_history.undo_stack))
+    changed = [n for n in before_g[0] if before_g[0][n] != after_g[0].get(n)]
+    print(("REPRODUCED " if before_g != after_g else "not reproduced ") + "D-C11g", type(e).__name__, "| nodes whose attributes changed:", changed, "| history entries", after_g[1])
